@@ -49,6 +49,10 @@ CHECKS = [
           "History monitor over the REAL aggregator (its own DependenciesBuilder wiring, file-backed sqlite, real state machine/certifier/epoch service/signer registration/signed entity service; doubles only for the outside world): seeded random histories of ticks, epoch changes incl. jumps, new immutables/blocks, partial/late registrations, valid/repeated/invalid/early(buffered) signatures, forced expiry, clean restarts, genesis re-issue; after every event the tables are read through an independent connection and every new certificate row is judged (live open message + quorum of acknowledged valid deliveries, key/parameters recomputed from the logged registrations, parent rule, no double certification, no gap); every stored certificate is verified with the public certificate verifier fed from the aggregator's own message service. Held on the histories explored; evidence lists states/transitions reached.",
           "test doubles for chain observer / immutable observer / digester / block scanner / uploader / snapshotter; clean restarts only (C15 covers crashes); sqlite durability",
           "runtime monitor: boundary event log + table snapshots checked by a history checker (reference recomputation of keys, parent, quorum)", "DESIGN.md §2 C14"),
+    check("C15", "mon-agg", "fault_enumeration",
+          "Fault enumeration with real process deaths: scripted honest histories over the real aggregator run once unarmed to record which named crash points (after multi-signature, after certificate insert, after open-message update, before/after artifact computation, after signed-entity insert, after each buffered hand-over, before/after buffer removal) are hit how often; then EVERY reached (point, occurrence) is crashed once by std::process::abort() inside the aggregator in a child process, a new process restarts on the same sqlite files and a monitor checks after the restart and after every further tick: all certificates verify with their chain under the public verifier, no signed entity has two artifacts, every artifact references a stored certificate of exactly that entity, and bounded progress (a new certified artifact within 8 macro steps of the honest workload). Double crashes are sampled.",
+          "sqlite durability; doubles of the outside world re-created at the persisted time point; exhaustive only over the crash points x occurrences reached by the base histories of the run",
+          "runtime monitoring under injected process crashes (abort at cfg-guarded crash points), invariants + bounded progress after restart", "DESIGN.md §2 C15"),
     check("C16", "mon-agg", "exploration",
           "Runtime monitor over the real aggregator: per open message the harness produces every party's honest signature itself (ground truth of who produced which sigma), then delivers shuffled honest + adversarial submissions (own sigma under another name, another party's sigma under own / unregistered name with full or truncated index lists, replays, truncated replays under the owner's name) through the certifier API, the real warp HTTP router, the buffered path and the message-queue signature processor; after every submission the single_signature table is read independently: each row must hold a sigma that verifies under the key the labelled party registered, no sigma under two labels, acknowledged honest contributions never disappear or shrink; the sealed certificate's signer list must name only parties with such a row.",
           "ground truth by construction + mithril-stm verification under the labelled party's registered key; on the message queue the party id is bound by the transport so relabelling is only sent through HTTP/API",
